@@ -95,6 +95,7 @@ func (e *EventStreaming) CreateEventStream(name string, count uint64) *EventStre
 	local := make(chan *si.EventRecord, defaultChannelBufSize)
 	stop := make(chan struct{})
 	e.createEventStreamInternal(stream, local, consumer, stop, name)
+	verifStreamYield()
 	history := e.buffer.GetRecentEvents(count)
 
 	go func(consumer chan<- *si.EventRecord, local <-chan *si.EventRecord, stop <-chan struct{}) {
